@@ -519,7 +519,7 @@ impl Check for C13 {
     fn meta(&self) -> Meta {
         Meta {
             level: "exploration",
-            rule: "send: the full product of builder options in systematic order (client: 3 booleans x 11 sizes; server: 4 booleans x 11 x 11 sizes; sizes {0,1,63,64,16383,16384,2^30-1,2^30,2^62-1,2^62,u64::MAX}; 2024 configurations, run index mod 2024) each set up over SimQuic with a drawn write schedule (partial acceptance down to 1 byte, pends, scarce stream credit) and parsed by the reference SETTINGS parser; receive: SETTINGS payloads (0-6 entries over known, unknown, grease and maximal ids, boolean and boundary values, all varint forms, in drawn order, with at most one deviation: repeated known id, repeated unknown id, HTTP/2-reserved id, truncated entry) delivered under drawn chunkings after a drawn delay to both roles, in one run in four behind an idle or a grease unidirectional stream opened first; applied values read back through the settings accessors before (defaults) and after; non-trivial = every run; distinct = distinct schedule signatures",
+            rule: "send: the full product of builder options in systematic order (client: 3 booleans x 11 sizes; server: 4 booleans x 11 x 11 sizes; sizes {0,1,63,64,16383,16384,2^30-1,2^30,2^62-1,2^62,u64::MAX}; 2024 configurations, run index mod 2024) each set up over SimQuic with a drawn write schedule (partial acceptance down to 1 byte, pends, scarce stream credit) and parsed by the reference SETTINGS parser; receive: SETTINGS payloads (0-6 entries over known, unknown, grease and maximal ids, boolean and boundary values, all varint forms, in drawn order, with at most one deviation: repeated known id, repeated unknown id, HTTP/2-reserved id, truncated entry) delivered under drawn chunkings after a drawn delay to both roles, in one run in four behind an idle or a grease unidirectional stream opened first; applied values read back through the settings accessors before (defaults) and after; client role, one run in two: a request whose field-section size is at or one above the advertised SETTINGS_MAX_FIELD_SECTION_SIZE (or above a tiny one) is in flight - send_request() waiting for stream credit - while the SETTINGS arrive, and must be refused or sent according to the advertised value once the credit comes; non-trivial = every run; distinct = distinct schedule signatures",
             real: &["h3 client/server builders, Config -> SETTINGS conversion and encoding, control stream setup", "SETTINGS decoding, validation and application (frame::Settings::decode, config::Settings::from, shared state)"],
             stub: &["QUIC transport (SimQuic)", "executor (simexec)", "peer (script, reference SETTINGS printer/parser)"],
             assumptions: &["a configured value that a varint cannot carry may be sent as 2^62-1 or refused by build() with an error, but must not panic", "a repeated unknown identifier may be ignored or rejected with H3_SETTINGS_ERROR"],
